@@ -80,6 +80,13 @@ MODULES = ["overlap", "kinetic", "momentum", "angmom", "moment1", "moment2", "po
 
 
 class Covariance:
+    fp = True  # cross-check: the same contract on the unmodified float64 code at sampled inputs (bounded)
+
+    def fp_shapes(self, tier):
+        sh = self.shapes(tier)
+        step = max(1, len(sh) // (6 if tier == "quick" else 24))
+        return sh[::step][:(6 if tier == "quick" else 24)]
+
     function = "block routines of every integral / evaluation module on a system and its rigidly moved image"
 
     def shapes(self, tier):
